@@ -11,7 +11,7 @@ import os
 from ..core import Scenario, Violation, HarnessError, canon
 from .. import seams
 
-MAX_SWAPS = (1, 2, 3, 5, 10, 50)
+MAX_SWAPS = (1, 2, 3, 5, 10, 50, 600)
 
 
 def own_fnv1a64(key, seed=0):
@@ -36,7 +36,7 @@ class CuckooWorld(Scenario):
         cfg = {
             "counting": counting,
             "capacity": rng.weighted([(3, 1), (4, 2), (4, 3), (3, 4), (2, 5), (2, 6), (1, 8), (1, 13)]),
-            "bucket_size": rng.weighted([(3, 1), (4, 2), (2, 3), (2, 4)]),
+            "bucket_size": rng.weighted([(6, 1), (8, 2), (4, 3), (4, 4), (1, 9), (1, 12)]),
             "max_swaps": rng.choice(MAX_SWAPS),
             "finger_size": rng.weighted([(3, 1), (2, 2), (3, 4)]),
             "auto_expand": rng.chance(1, 2),
